@@ -94,7 +94,7 @@ var intAtoms = []struct {
 var floatAtoms = []struct {
 	src string
 	v   float64
-}{{"1", 1}, {"2", 2}, {"0.5", 0.5}, {"2.5", 2.5}, {"10", 10}, {"x", 1.5}, {"3", 3}, {"(2)", 2}, {"4.0", 4}, {"'a'", 97}, {`'\n'`, 10}, {"0x10", 16}, {"1e1", 10}}
+}{{"1", 1}, {"2", 2}, {"0.5", 0.5}, {"2.5", 2.5}, {"10", 10}, {"x", 1.5}, {"3", 3}, {"(2)", 2}, {"4.0", 4}, {"'a'", 97}, {`'\n'`, 10}, {"0x10", 16}, {"1e1", 10}, {"(9223372036854775808)", 9223372036854775808}, {"(0x8000000000000000)", 9223372036854775808}, {"(18446744073709551615)", 18446744073709551615}, {"(9223372036854775807)", 9223372036854775807}}
 // not-a-number and the infinities, from Go data and from float division inside the template; used as
 // operands of comparisons only (their conversion to an integer is not defined)
 var specialFloatAtoms = []struct {
